@@ -1,4 +1,5 @@
 import Py4hwV.Net.Sim
+import Py4hwV.Net.PrepLemma
 /-
   C05 — Clock edges are atomic: every sequential block sees pre-edge values.
 
@@ -27,8 +28,8 @@ def enabledClockables (v : Val) (ds : List Driver) : List Nat :=
 /-- wires a leaf prepares at this edge -/
 def targets (r : Nat → σ × List (Nat × Int)) (k : Nat) : List Nat := (r k).2.map Prod.fst
 
-/-- value stored by prepare -/
-def P (d : Design σ) (wv : Nat × Int) : Nat := (Gen.Wire.prepare (d.width wv.1) wv.2).toNat
+/-- value stored by prepare (independent of the state: `Net.prepVal_eq`) -/
+def P (d : Design σ) (wv : Nat × Int) : Nat := Bits.put (d.width wv.1) wv.2
 
 def nstep (d : Design σ) (n : Val) (wv : Nat × Int) : Val := upd n wv.1 (P d wv)
 
@@ -58,7 +59,7 @@ theorem foldl_prepW_nxt (d : Design σ) (l : List (Nat × Int)) (s : State σ) :
     (l.foldl (prepW d) s).nxt = l.foldl (nstep d) s.nxt := by
   induction l generalizing s with
   | nil => rfl
-  | cons a l ih => simp [List.foldl, ih, prepW, nstep, P]
+  | cons a l ih => simp [List.foldl, ih, prepW, nstep, P, prepVal_eq]
 
 /-- ATOMICITY, step form: a `clock()` call does not change any wire value — later leaves still read pre-edge values -/
 theorem clockLeaf_val (d : Design σ) (s : State σ) (k : Nat) : (clockLeaf d s k).val = s.val := by
@@ -304,10 +305,10 @@ theorem clkCycle_perm_indep (d : Design σ) (ds₁ ds₂ : List Driver) (s : Sta
     rw [hr]
     congr 1
     funext s' k
-    simp [applyRes, prepW, hw]
+    simp [applyRes, prepW, prepVal, hw]
     congr 1
     funext s'' wv
-    simp [prepW, hw]
+    simp [prepW, prepVal, hw]
   rw [hA { d with drivers := ds₁ } _ rfl rfl, hA { d with drivers := ds₂ } _ rfl rfl, this]
   rfl
 
